@@ -135,4 +135,5 @@ def run(run_, tier):
     pd_factories = [f for f in c10.factories() if any(t in f for t in ("Identity", "Diagonal", "TriangularFactored", "DenseDefinite", "DensePositiveDefinite",
                                                                       "Eigendecomposed", "SoftAbs", "LowRank", "Block"))]
     c10.run_suite(run_, pd_factories, tier, keep=lambda oid: "sqrt" in oid)
+    c10.sqrt_order_and_conditioning(run_)
     run_.function("mici.matrices.<every positive definite class>._construct_sqrt (C10 contract: sqrt @ sqrt.T == matrix), incl. derived objects")
